@@ -289,6 +289,34 @@ int main()
         free(text);
       }
     }
+    else if(hxIs(l, "tables", 0))
+    {
+      // probe for tools/gen_json.py: the escape tables by EXECUTION of the current code.
+      //   e<c>=<hex of toString(String(1, c))>   for every byte c = 1..255
+      //   u<e>=<dump of parse("\<e>A")> | err    for every byte e = 1..255 (escape letter)
+      char num[16];
+      obStr("tables");
+      for(int c = 1; c < 256; ++c)
+      {
+        char ch = (char)c;
+        String s = Json::toString(Variant(String(&ch, 1)));
+        snprintf(num, sizeof(num), " e%d=", c);
+        obStr(num);
+        obHex((const char*)s, s.length());
+      }
+      for(int e = 1; e < 256; ++e)
+      {
+        char* text = (char*)malloc(6);
+        text[0] = '"'; text[1] = '\\'; text[2] = (char)e; text[3] = 'A'; text[4] = '"'; text[5] = 0;
+        Json::Parser parser;
+        Variant v;
+        snprintf(num, sizeof(num), " u%d=", e);
+        obStr(num);
+        if(parser.parse(text, v)) dump(v); else obStr("err");
+        free(text);
+      }
+      obFlush();
+    }
     else { obStr("bad-op"); obFlush(); }
   }
   return 0;
